@@ -300,74 +300,9 @@ func runC08(p *core.Program, r *core.Report) {
 		}
 	}
 
-	// ---- Set: the store is unreachable when the lookup found a live entry; Update: every feasible path stores
+	cacheSetRule(p, r)
 	storeCall := func(in ssa.Instruction) bool {
 		return path.IsCallTo(in, cachePkg(p), "Cache.put") || path.IsCallTo(in, cachePkg(p), "Cache.add")
-	}
-	lookupCall := func(in ssa.Instruction) bool {
-		return path.IsCallTo(in, cachePkg(p), "Cache.get") || path.IsCallTo(in, cachePkg(p), "Cache.Get")
-	}
-	if fn := mustFunc(p, r, "cache.(*Cache).Set"); fn != nil {
-		var look *ssa.Call
-		for _, in := range path.Instrs(fn) {
-			if lookupCall(in) {
-				look = in.(*ssa.Call)
-				break
-			}
-		}
-		keyPar := paramByName(fn, "key")
-		okLook := look != nil && keyPar != nil && len(look.Call.Args) == 2 && look.Call.Args[1] == ssa.Value(keyPar)
-		r.Obligation("PT3", okLook, map[string]any{"rule": "PT3", "function": "cache.(*Cache).Set", "what": "Set looks its own key up first", "ok": okLook})
-		if !okLook {
-			r.Violation(core.Diag{Rule: "PT3", Func: "cache.(*Cache).Set", Object: "liveness test", Pos: p.Pos(fn.Pos()), Reason: "Set does not look its key up before storing: a live entry would be overwritten"})
-		} else {
-			var item, errv ssa.Value
-			for _, ref := range *look.Referrers() {
-				if ex, ok := ref.(*ssa.Extract); ok {
-					if ex.Index == 0 {
-						item = ex
-					} else {
-						errv = ex
-					}
-				}
-			}
-			bad := false
-			stores := 0
-			path.WalkFeasible(fn, excl, func(b *ssa.BasicBlock, f path.NilFacts) {
-				for _, in := range b.Instrs {
-					if storeCall(in) {
-						stores++
-						c := in.(ssa.CallInstruction)
-						if len(c.Common().Args) < 2 || c.Common().Args[1] != ssa.Value(keyPar) {
-							bad = true
-						}
-						// live entry: item != nil (which implies err == nil)
-						if item != nil {
-							// on every path to the store the lookup must be known to have
-							// found no live entry: item == nil, or err != nil
-							absent := false
-							if v, known := f[item]; known && !v {
-								absent = true
-							}
-							if errv != nil {
-								if v, known := f[errv]; known && v {
-									absent = true
-								}
-							}
-							if !absent || !look.Block().Dominates(b) {
-								bad = true
-							}
-						}
-					}
-				}
-			})
-			ok := !bad && stores > 0 && item != nil
-			r.Obligation("PT3", ok, map[string]any{"rule": "PT3", "function": "cache.(*Cache).Set", "what": "store unreachable when the lookup found a live entry", "ok": ok})
-			if !ok {
-				r.Violation(core.Diag{Rule: "PT3", Func: "cache.(*Cache).Set", Object: "store guard", Pos: p.Pos(fn.Pos()),
-					Reason: "Set can reach its store although the lookup of the same key returned a live entry (or without looking the key up): an existing entry is overwritten instead of being rejected with an error"})
-			}
-		}
 	}
 	if fn := mustFunc(p, r, "cache.(*Cache).Update"); fn != nil {
 		skipped := false
@@ -841,4 +776,81 @@ func c08Store(p *core.Program, r *core.Report, fns []*ssa.Function) {
 		c.ob("ER5", p.FuncName(put), "a rejected store leaves no trace", p.InstrPos(in), !leak, "cache state is written on a path that can still end in an error return: a rejected value (or duplicate) changes the entry although an error is reported")
 	}
 	c.ob("ER5", p.FuncName(put), "store site", c.fpos(put), nW >= 1, "put never writes the cache")
+}
+
+// cacheSetRule (shared by C08 and C17): Set decides "already there" through the
+// expiry-aware lookup of its own key, and its store is unreachable when that lookup
+// found a live entry.  For C17 this is what lets SetDefault replace an expired entry
+// with the freshly computed value.
+func cacheSetRule(p *core.Program, r *core.Report) {
+	excl := func(callee *ssa.Function) [][2]int { return lockset.ExclusivePairs(p, callee) }
+	// ---- Set: the store is unreachable when the lookup found a live entry; Update: every feasible path stores
+	storeCall := func(in ssa.Instruction) bool {
+		return path.IsCallTo(in, cachePkg(p), "Cache.put") || path.IsCallTo(in, cachePkg(p), "Cache.add")
+	}
+	lookupCall := func(in ssa.Instruction) bool {
+		return path.IsCallTo(in, cachePkg(p), "Cache.get") || path.IsCallTo(in, cachePkg(p), "Cache.Get")
+	}
+	if fn := mustFunc(p, r, "cache.(*Cache).Set"); fn != nil {
+		var look *ssa.Call
+		for _, in := range path.Instrs(fn) {
+			if lookupCall(in) {
+				look = in.(*ssa.Call)
+				break
+			}
+		}
+		keyPar := paramByName(fn, "key")
+		okLook := look != nil && keyPar != nil && len(look.Call.Args) == 2 && look.Call.Args[1] == ssa.Value(keyPar)
+		r.Obligation("PT3", okLook, map[string]any{"rule": "PT3", "function": "cache.(*Cache).Set", "what": "Set looks its own key up first", "ok": okLook})
+		if !okLook {
+			r.Violation(core.Diag{Rule: "PT3", Func: "cache.(*Cache).Set", Object: "liveness test", Pos: p.Pos(fn.Pos()), Reason: "Set does not look its key up before storing: a live entry would be overwritten"})
+		} else {
+			var item, errv ssa.Value
+			for _, ref := range *look.Referrers() {
+				if ex, ok := ref.(*ssa.Extract); ok {
+					if ex.Index == 0 {
+						item = ex
+					} else {
+						errv = ex
+					}
+				}
+			}
+			bad := false
+			stores := 0
+			path.WalkFeasible(fn, excl, func(b *ssa.BasicBlock, f path.NilFacts) {
+				for _, in := range b.Instrs {
+					if storeCall(in) {
+						stores++
+						c := in.(ssa.CallInstruction)
+						if len(c.Common().Args) < 2 || c.Common().Args[1] != ssa.Value(keyPar) {
+							bad = true
+						}
+						// live entry: item != nil (which implies err == nil)
+						if item != nil {
+							// on every path to the store the lookup must be known to have
+							// found no live entry: item == nil, or err != nil
+							absent := false
+							if v, known := f[item]; known && !v {
+								absent = true
+							}
+							if errv != nil {
+								if v, known := f[errv]; known && v {
+									absent = true
+								}
+							}
+							if !absent || !look.Block().Dominates(b) {
+								bad = true
+							}
+						}
+					}
+				}
+			})
+			ok := !bad && stores > 0 && item != nil
+			r.Obligation("PT3", ok, map[string]any{"rule": "PT3", "function": "cache.(*Cache).Set", "what": "store unreachable when the lookup found a live entry", "ok": ok})
+			if !ok {
+				r.Violation(core.Diag{Rule: "PT3", Func: "cache.(*Cache).Set", Object: "store guard", Pos: p.Pos(fn.Pos()),
+					Reason: "Set can reach its store although the lookup of the same key returned a live entry (or without looking the key up): an existing entry is overwritten instead of being rejected with an error"})
+			}
+		}
+	}
 }
